@@ -30,7 +30,13 @@ EncCases == {[kind |-> "PARTS", ps |-> ps] : ps \in UNION {[1..k -> EncParts] : 
 VarNames(q) == {<<97>> \o Cat2(us) : us \in SeqsUpTo(VarUnits(q), IF N > 3 THEN 3 ELSE 2)}
 VarCases == UNION {{[kind |-> "VAR", q |-> q, sys |-> sys, name |-> nm] : sys \in BOOLEAN, nm \in VarNames(q)} : q \in {0, SQ, DQ, BQ}}
 
-Init == c \in StrCases \cup IdCases \cup ValCases \cup EncCases \cup VarCases
+\* names for the target renderings: every sequence of up to 2 (N > 3: 3) name characters, and the long / keyword classes
+TNames == (SeqsUpTo(TNameChars, IF N > 3 THEN 3 ELSE 2) \ {<<>>})
+          \cup {[i \in 1..65 |-> 97 + (i % 3)], [i \in 1..300 |-> 97 + (i % 5)], <<115, 101, 108, 101, 99, 116>>, <<65, 98, 67>>, <<48, 48, 55>>}
+TCases == {[kind |-> "TNAME", w |-> w] : w \in TNames}
+TStyles == {"t_bq", "t_dq", "t_br"}
+
+Init == c \in StrCases \cup IdCases \cup ValCases \cup EncCases \cup VarCases \cup TCases
 Next == UNCHANGED c
 Spec == Init /\ [][Next]_c
 
@@ -42,6 +48,14 @@ SelfConsistent ==
   IF c.kind = "STR" THEN Denotes(c.style, TextOf(c.style, c.us), ValueOf(c.us))
   ELSE IF c.kind = "ID" THEN PathDenotes(IdText(c.fs), IdParts(c.fs))
   ELSE IF c.kind = "VAR" THEN VarDenotes(VarText(c.q, c.sys, c.name), c.sys, c.name)
+  ELSE IF c.kind = "TNAME"
+  THEN \A st \in TStyles : \A q \in {TRUE} \cup (IF TBareOk(c.w) THEN {FALSE} ELSE {}) :
+         \* alone, as the second part of a path, and followed by more text: read back exactly, ending where it ends
+         /\ LET t == TWritten(st, c.w, q) r == TPath(st, t, 1, "start", <<>>, <<>>) IN r.ok /\ r.parts = <<c.w>> /\ r.end = Len(t) + 1
+         /\ LET t == <<97, DOT>> \o TWritten(st, c.w, q) \o <<32, 65, 83>> r == TPath(st, t, 1, "start", <<>>, <<>>) IN
+              r.ok /\ r.parts = <<<<97>>, c.w>> /\ r.end = Len(t) - 2
+         /\ MatchSegs(st, <<83, 32>> \o TWritten(st, c.w, q) \o <<44>> \o TWritten(st, c.w, q), 1,
+                      <<[t |-> "lit", w |-> <<83>>], [t |-> "path", parts |-> <<c.w>>], [t |-> "lit", w |-> <<44>>], [t |-> "path", parts |-> <<c.w>>]>>) = "ok"
   ELSE TRUE
 \* no literal is ended early by its own content: the scanner stops exactly at the last character
 Inert == c.kind = "STR" => ScanStr(c.style, TextOf(c.style, c.us)).end = Len(TextOf(c.style, c.us))
@@ -53,5 +67,6 @@ Emit ==
   ELSE IF c.kind = "VAL" THEN PrintT(<<"VAL", c.v>>)
   ELSE IF c.kind = "PARTS" THEN PrintT(<<"PARTS", c.ps>>)
   ELSE IF c.kind = "VAR" THEN PrintT(<<"VAR", c.q, c.sys, VarText(c.q, c.sys, c.name), c.name>>)
+  ELSE IF c.kind = "TNAME" THEN PrintT(<<"TNAME", c.w>>)
   ELSE PrintT(<<"ID", [i \in 1..Len(c.fs) |-> <<c.fs[i][1][1], c.fs[i][2]>>], IdText(c.fs), IdParts(c.fs)>>)
 =============================================================================
